@@ -237,10 +237,21 @@ func TestHandshakePayloads(t *testing.T) {
 		c := hx.GenCreds(hx.Suites9()).Draw(t, "creds")
 		long := rapid.IntRange(0, 4).Draw(t, "longName") == 0
 		if long {
+			// more than 16 BYTES: plain ASCII, or multi-byte UTF-8 characters so that
+			// the byte length exceeds 16 while the character count may not
 			n := rapid.IntRange(17, 40).Draw(t, "ulen")
-			u := make([]byte, n)
-			for i := range u {
-				u[i] = byte('a' + i%26)
+			var u []byte
+			switch rapid.IntRange(0, 2).Draw(t, "nameKind") {
+			case 0:
+				for i := 0; i < n; i++ {
+					u = append(u, byte('a'+i%26))
+				}
+			case 1:
+				for len(u) < n {
+					u = append(u, []byte(rapid.SampledFrom([]string{"ü", "é", "ß", "€", "a", "z", "漢"}).Draw(t, "char"))...)
+				}
+			default:
+				u = rapid.SliceOfN(rapid.ByteRange(1, 255), n, n).Draw(t, "nameBytes")
 			}
 			c.User = string(u)
 		}
@@ -248,6 +259,7 @@ func TestHandshakePayloads(t *testing.T) {
 		if long {
 			// a BMC that would accept the truncated name, to make truncation visible
 			w.BMC.Users[c.User[:16]] = c.Password
+			w.BMC.Users[c.User] = c.Password
 		}
 		ctx, cancel := w.Ctx(6)
 		sess, err := w.T.NewV2Session(ctx, c.Opts())
@@ -258,8 +270,8 @@ func TestHandshakePayloads(t *testing.T) {
 				t.Fatalf("username of %d bytes: got session %v, err %v; want an error", len(c.User), sess != nil, err)
 			}
 			for _, rx := range w.BMC.Log {
-				if rx.Pkt != nil && rx.Pkt.PayloadType == ref.PTRAKP1 {
-					t.Fatalf("username of %d bytes: a RAKP1 was transmitted: % x", len(c.User), rx.Raw)
+				if rx.Pkt != nil && rx.Pkt.PayloadType == ref.PTRAKP1 || (len(rx.Raw) > 5 && rx.Raw[5]&0x3f == ref.PTRAKP1) {
+					t.Fatalf("username of %d bytes (%q): a RAKP1 was transmitted: % x", len(c.User), c.User, rx.Raw)
 				}
 			}
 			ev.Label("long-username-refused")
